@@ -218,9 +218,7 @@ class Core:
         if is_true(goal):
             return
         name = "%s/%s:%s" % (self.prefix, kind, label)
-        line = getattr(node, "lineno", None)
-        if line is not None and kind == "safe":
-            name += "@%d" % line
+        line = getattr(node, "lineno", None)     # kept as metadata; names stay stable when lines shift
         base, k = name, 1
         while name in self.obl_names:
             k += 1
@@ -520,8 +518,47 @@ class Core:
     def initial_heap_arr(self, key):
         name = "H0_%s_%s" % key
         if name not in self.ghost:
-            self.ghost[name] = z3.Const(name, z3.ArraySort(self.S.Ref, self.S.sort(self.field_type(key))))
+            arr = z3.Const(name, z3.ArraySort(self.S.Ref, self.S.sort(self.field_type(key))))
+            self.ghost[name] = arr
+            if self.mode == "UNROLL" and self.S.ref_consts is not None:
+                # WF.types over the finite universe: well-typed references, enum values in range, lengths >= 0
+                ty = self.field_type(key)
+                for r in self.S.ref_consts:
+                    f = self.well_typed(Val(ty, z3.Select(arr, r)), depth=0)
+                    if f is not None:
+                        self.assumptions.append(f)
         return self.ghost[name]
+
+    def class_ids_of(self, cls):
+        return [self.class_ids[c] for c in self.src.subclasses(cls)] if cls in self.src.classes else []
+
+    def well_typed(self, v, depth=0):
+        """type invariant of a value (WF.types); None if there is nothing to say"""
+        k = v.ty.kind
+        if k == "Ref" and v.ty.cls is not None:
+            ids = self.class_ids_of(v.ty.cls)
+            return z3.Or(v.z == self.S.null, *[self.cls_of(v.z) == i for i in ids])
+        if k == "Enum":
+            ci = self.src.classes.get(v.ty.name)
+            if ci is None:
+                return None
+            return z3.Or(*[v.z == m for m in sorted(set(ci.enum_members.values()))])
+        if k == "List" and depth < 2:
+            parts = [self.list_len(v) >= 0]
+            if self.mode == "UNROLL":
+                for i in range(self.bound + 1):
+                    f = self.well_typed(Val(v.ty.elem, self.list_get(v, z3.IntVal(i))), depth + 1)
+                    if f is not None:
+                        parts.append(z3.Implies(z3.IntVal(i) < self.list_len(v), f))
+            return z3.And(*parts)
+        if k == "Tuple":
+            parts = [self.well_typed(self.tuple_get(v, i), depth + 1) for i in range(len(v.ty.elems))]
+            parts = [p for p in parts if p is not None]
+            return z3.And(*parts) if parts else None
+        if k == "Opt":
+            f = self.well_typed(self.opt_val(v), depth + 1)
+            return None if f is None else z3.Implies(z3.Not(self.opt_is_none(v)), f)
+        return None
 
     def read_field(self, st, obj, attr, node=None, heap=None):
         if obj.ty.kind != "Ref" or obj.ty.cls is None:
